@@ -79,6 +79,25 @@ fn main() {
                 }
             }
         }
+        "part" => {
+            // run one part alone (development aid): bsmc part <name> [quick|thorough]
+            let name = args.get(2).cloned().unwrap_or_default();
+            let tier = if args.get(3).map(|s| s == "thorough").unwrap_or(false) { Tier::Thorough } else { Tier::Quick };
+            let (prop, part) = match name.as_str() {
+                "c11_attach" => ("C11", mt::part_c11_attach(tier)),
+                "c09_real" => ("C09", mt::part_c09_real(tier)),
+                "c14_threads" => ("C14", mt::part_c14_threads(tier)),
+                "c14_sim" => ("C14", simk::part_c14_sim(tier)),
+                "c11_sim" => ("C11", simk::part_c11_sim(tier)),
+                "c10_sim" => ("C10", simk::part_c10_sim(tier)),
+                "c10_witnesses" => ("C10", mt::part_c10_witnesses(tier)),
+                "c09_sim" => ("C09", simk::part_c09(tier)),
+                _ => usage(),
+            };
+            let mut r = Report::new(prop, tier, "model_checking");
+            r.parts.push(part);
+            std::process::exit(finish(r));
+        }
         "corpus-mt" => {
             let w: usize = args.get(2).and_then(|s| s.parse().ok()).unwrap_or(2);
             let i: u64 = args.get(3).and_then(|s| s.parse().ok()).unwrap_or(5);
@@ -178,6 +197,8 @@ fn run_check(id: &str, tier: Tier) -> i32 {
         "C11" => {
             let mut r = Report::new("C11", tier, "model_checking");
             r.parts.push(c01::part_c11(tier));
+            r.parts.push(mt::part_c11_attach(tier));
+            r.parts.push(simk::part_c11_sim(tier));
             finish(r)
         }
         "C12" => {
@@ -196,6 +217,7 @@ fn run_check(id: &str, tier: Tier) -> i32 {
             r.parts.push(c14::part_dr7(tier));
             r.parts.push(c01::part_c14_regs(tier));
             r.parts.push(mt::part_c14_threads(tier));
+            r.parts.push(simk::part_c14_sim(tier));
             finish(r)
         }
         "C15" => {
